@@ -650,6 +650,7 @@ func ruleSender() *Rule {
 			var getArgs []string
 			success, reqPrev, entriesLen, respIndex := "", "", "", ""
 			done, bytesW, offsetS := "", "", ""
+			offsetSent, offsetSentPos := "", ""
 			p.discover(root, func(a *Analysis, f *Frame, in ssa.Instruction) {
 				if iface, m, c := invokeOf(in); iface == "Log" && m == "GetEntry" && f.Parent == nil {
 					s := p.Canon(f, c.Args[0]).S
@@ -689,6 +690,9 @@ func ruleSender() *Rule {
 							bytesW, offsetS = b, a
 						}
 					}
+				}
+				if s, fld := storeField(in); s != nil && fld == p.Field("InstallSnapshotRequest.Offset") && FuncName(f.Fn) == "(*Raft).sendInstallSnapshot" {
+					offsetSent, offsetSentPos = p.Canon(f, s.Val).S, p.InstrPos(in)
 				}
 				if s, fld := storeField(in); s != nil && fld == p.Field("AppendEntriesRequest.Entries") && f.Parent == nil {
 					entriesLen = "len(" + p.Canon(f, s.Val).S + ")"
@@ -814,6 +818,22 @@ func ruleSender() *Rule {
 			}
 			if len(getArgs) == 0 {
 				out = append(out, missing(id, "Log.GetEntry in (*Raft).sendAppendEntries")...)
+			}
+			// the handler acknowledges a chunk it does not need (a snapshot it already has, a chunk already written) by echoing
+			// request.Offset in BytesWritten: the sender recognises that acknowledgement only if it compares with the very value it sent
+			{
+				ob := Obligation{Rule: id, Construct: "SNAP-HANDSHAKE response.BytesWritten is compared with the offset sent in (*Raft).sendInstallSnapshot", Pos: offsetSentPos,
+					Facts: []string{"request.Offset := " + offsetSent, "compared with: " + offsetS}}
+				switch {
+				case offsetSent == "" || bytesW == "":
+					ob.Verdict, ob.Detail = AnchorLost, "no store to request.Offset or no comparison of response.BytesWritten in sendInstallSnapshot"
+				case offsetSent == offsetS:
+					ob.Verdict, ob.Detail = Discharged, "response.BytesWritten is compared with the value stored in request.Offset, which is what the handler echoes when it has nothing to write"
+				default:
+					ob.Verdict, ob.Detail = Violated, "response.BytesWritten is compared with "+offsetS+", not with the value sent as request.Offset ("+offsetSent+"): the handler's acknowledgement of a snapshot it does not need "+
+						"(BytesWritten = request.Offset) is taken for a mismatch, the file is moved back and the same chunk is sent for ever, so the follower's nextIndex never advances"
+				}
+				out = append(out, ob)
 			}
 			out = append(out, fmtHandshakeSeek(p, id)...)
 			out = append(out, leaderResetsMatch(p, id)...)
